@@ -739,6 +739,14 @@ func (e *c06Env) awaitContinuousCaughtUp(id string) bool {
 		e.run.Note("case %d: replication went into error state: %s", e.c.Index, errSeen)
 		return false
 	}
+	if !ok {
+		st, _ := e.status(id)
+		b, _ := json.Marshal(st)
+		push, pull, em := e.dirStates(id)
+		e.tr("continuous replication did not catch up: states push=%q pull=%q err=%q status=%s newest document sequence active=%d passive=%d", push, pull, em, b, e.maxDocSeq(e.A), e.maxDocSeq(e.P))
+		e.run.Note("case %d (%s %s): continuous replication did not catch up within the watchdog: states push=%q pull=%q err=%q status=%s newest document sequence active=%d passive=%d; trace: %v",
+			e.c.Index, e.c.Proto, e.c.Direction, push, pull, em, b, e.maxDocSeq(e.A), e.maxDocSeq(e.P), c06Tail(e.traceCopy(), 12))
+	}
 	return ok
 }
 
@@ -871,15 +879,15 @@ func c06GenScript(r *vlib.Rand) []c06Step {
 	}
 	for i := 0; i < n; i++ {
 		switch x := r.Intn(20); {
-		case x < 11:
+		case x < 10:
 			st = append(st, c06Step{Op: "write", Peer: peer(), Doc: r.Intn(c06NumDocs), Kind: kind()})
-		case x < 14:
+		case x < 13:
 			st = append(st, c06Step{Op: "start"})
-		case x < 16:
+		case x < 15:
 			st = append(st, c06Step{Op: "await"})
-		case x < 17:
+		case x < 16:
 			st = append(st, c06Step{Op: "stop"})
-		case x < 19:
+		case x < 18:
 			// one document's replicated write is parked at the storage boundary while the others go through; after the
 			// stop it either goes through late ("delay") or fails = the in-flight revision is lost ("lose")
 			k := "delay"
@@ -1192,19 +1200,18 @@ func c06IsAncestorIn(tree map[string]string, anc, rev string) bool {
 	return false
 }
 
-// c06Shape names the revision-tree shape of a divergence (revision-tree protocol): which peer's current revision
-// sits on a branch the other peer does not have at all, and whether the other peer's current revision has been
-// deleted on a side branch of the first (a deletion that is never offered, because only winners are replicated).
+// c06Shape names the revision-tree shape of a divergence (revision-tree protocol) that has one particular cause:
+// peer X holds a tombstone T below peer Y's current revision, and T is not X's current revision (it sits on a
+// non-winning branch of X: written by conflict resolution for the losing branch, or by a local delete that lost
+// the tie against another tombstoned branch). Only winning revisions are offered to the peer, so Y never learns
+// that its current revision was deleted, and X's winner - on another branch - is refused by Y as a conflict or
+// already known to Y.
 func c06Shape(a, p *c06Doc) string {
 	one := func(x, y *c06Doc, xn, yn string) string {
-		if _, known := x.Parents[y.Rev]; !known || c06IsAncestorIn(x.Parents, y.Rev, x.Rev) {
-			return ""
-		}
-		// y's current revision is in x's tree but not under x's current revision
 		for leaf := range x.Parents {
-			if x.DelRevs[leaf] && leaf != x.Rev && c06IsAncestorIn(x.Parents, y.Rev, leaf) {
-				if _, yKnows := y.Parents[x.Rev]; !yKnows {
-					return xn + "s-winner-is-on-a-branch-unknown-to-the-" + yn + ";the-" + yn + "s-current-revision-is-deleted-on-a-side-branch-of-the-" + xn
+			if x.DelRevs[leaf] && leaf != x.Rev && leaf != y.Rev && c06IsAncestorIn(x.Parents, y.Rev, leaf) {
+				if _, yKnows := y.Parents[leaf]; !yKnows {
+					return "the-" + yn + "s-current-revision-is-tombstoned-on-a-non-winning-branch-of-the-" + xn + "-and-that-tombstone-is-never-replicated"
 				}
 			}
 		}
@@ -1252,7 +1259,8 @@ func (e *c06Env) checkEqual(pr c06Pair, phase string, pairs []c06Pair, passes an
 	}
 	sig := e.sigBase() + "|" + phase + "|peers-differ-in-" + field
 	if sh := c06Shape(a, p); sh != "" && !e.hlv {
-		sig += "|shape=" + sh
+		// one cause, many appearances (live / tombstone on either side): the signature names the cause
+		sig = e.sigBase() + "|" + phase + "|peers-differ|shape=" + sh
 	}
 	miss := e.ackedMissing(pairs)
 	if len(miss) > 0 {
@@ -1439,8 +1447,7 @@ func c06Tail(s []string, n int) []string {
 
 // ---------------------------------------------------------------------------------------------
 
-func c06Cases(run *vlib.Run) []*c06Case {
-	scripts := run.N(25, 400)
+func c06Cases(run *vlib.Run, scripts int) []*c06Case {
 	var cases []*c06Case
 	for s := 0; s < scripts; s++ {
 		r := run.CaseRand(s)
@@ -1461,14 +1468,25 @@ func c06Cases(run *vlib.Run) []*c06Case {
 func TestVerif_C06_ISGR(t *testing.T) {
 	run := vlib.Start(t, "C06", "isgr")
 	defer run.Finish()
+	c06RunISGR(t, run, run.N(25, 400), 6)
+}
+
+// The same workload under the race detector (thorough tier only): replication handlers, checkpointer, status
+// reporter and the harness's local writes run on separate goroutines.
+func TestVerif_C06_ISGRRace(t *testing.T) {
+	run := vlib.Start(t, "C06", "isgr-race")
+	defer run.Finish()
+	c06RunISGR(t, run, run.N(6, 25), 4)
+}
+
+func c06RunISGR(t *testing.T, run *vlib.Run, scripts, workers int) {
 	base.RequireNumTestBuckets(t, 2)
 	prev := db.BypassReleasedSequenceWait.Load()
 	db.BypassReleasedSequenceWait.Store(false)
 	defer db.BypassReleasedSequenceWait.Store(prev)
 
-	cases := c06Cases(run)
+	cases := c06Cases(run, scripts)
 	only, onlyOK := run.OnlyCase()
-	workers := 6
 	sem := make(chan struct{}, workers)
 	t.Run("cases", func(t *testing.T) {
 		for _, c := range cases {
